@@ -192,8 +192,10 @@ def ground_chunk(args):
     ages = d['ages']
     ev = row[0]
     j0 = first_col(row)
-    kind = obj.event_code_to_kind(ev)
-    timed = kind in ('road', 'track')
+    # timed or measured: from the event-code families themselves (field = jumps and throws, C04), not from the
+    # classifier of the code under contract
+    from pyvc.util import real_module as _rm
+    timed = not _rm('athlib.codes').PAT_FIELD.match(ev)
     best = row[2]
     bad = []
     n = 0
@@ -259,8 +261,10 @@ def athlon_chunk(args):
     ages = d['ages']
     bad = []
     n = 0
+    from pyvc.util import real_module as _rm
     for row in d[g]:
         ev = row[0]
+        timed = not _rm('athlib.codes').PAT_FIELD.match(ev)
         for age2 in range(2, 2 * 135 + 1):
             age = age2 / 2
             a_arg = int(age) if age == int(age) else age
@@ -275,6 +279,25 @@ def athlon_chunk(args):
                         got = 'raises %s' % type(e).__name__
                     if got != want:
                         bad.append(('athlon-factor', gs, a_arg, e2, got, want))
+                    elif age2 % 7 == 0 and isinstance(got, (int, float)) and got:
+                        # grade identities relative to the grader's own open best (standard / time, or mark / standard)
+                        try:
+                            best = obj.world_best(gs, e2)
+                            prev = None
+                            for mult in (0.5, 1.0, 1.1, 2.0):
+                                mark = best * mult
+                                n += 1
+                                gr = obj.calculate_age_grade(gs, a_arg, e2, mark)
+                                std = best * 1.0 / got
+                                want_g = (std / mark) if timed else (mark / std)
+                                if not ulp_close(gr, want_g):
+                                    bad.append(('athlon-grade', gs, a_arg, e2, mark, gr, want_g))
+                                    break
+                                if prev is not None and not ((gr < prev) if timed else (gr > prev)):
+                                    bad.append(('athlon-grade-monotone', gs, a_arg, e2, mark, gr, prev))
+                                prev = gr
+                        except Exception as e:
+                            bad.append(('athlon-grade', gs, a_arg, e2, None, 'raises %s' % type(e).__name__, None))
             if len(bad) > 6:
                 return ('athlons', g), n, bad[:6]
     return ('athlons', g), n, bad[:6]
